@@ -38,12 +38,68 @@ def nbytes(a):
     return n
 
 
-def check_class(chk, ex, cls, found):
+def layout_found(chk, cls, a, pc, goal, fallback):
+    """replay of a refuted layout obligation: constructor arguments from the solver's counterexample
+    (small values preferred), the real shared sketch is built and its arrays are tested for overlap"""
+    import numpy as np
+
+    def f():
+        small = [z3.And(v.t >= 1, v.t <= 40) for k, v in a.items() if isinstance(v, Sym) and z3.is_int(v.t) and k in ("width", "depth", "max_key_len")]
+        for extra in (small, []):
+            s = z3.Solver()
+            s.set("timeout", 20000)
+            for h in pc:
+                s.add(h)
+            s.add(z3.Not(goal))
+            for e in extra:
+                s.add(e)
+            if s.check() != z3.sat:
+                continue
+            m = s.model()
+            cfg = {}
+            for k, v in a.items():
+                if isinstance(v, Sym) and z3.is_int(v.t):
+                    val = m.eval(v.t, model_completion=True)
+                    if z3.is_int_value(val):
+                        cfg[k] = val.as_long()
+            if any(v > 10**6 for k, v in cfg.items() if k in ("width", "depth", "max_key_len")) or cfg.get("p", 8) > 16:
+                continue
+            mod = chk.module({"HyperLogLog": "hyperloglog", "HeavyHitters": "heavyhitters"}.get(cls, "countmin"))
+            obj = None
+            for c_ in (cfg, {k: v for k, v in cfg.items() if k not in ("max_count", "num_reserved")}):
+                try:
+                    obj = getattr(mod, cls)(**c_, shared_memory=True)
+                    cfg = c_
+                    break
+                except Exception:
+                    continue
+            if obj is None:
+                continue
+            res = None
+            names = ARRAYS[cls]
+            for i, n1 in enumerate(names):
+                for n2 in names[i + 1:]:
+                    if res is None and np.shares_memory(getattr(obj, n1), getattr(obj, n2)):
+                        res = {"key": "%s(%s, shared_memory=True)" % (cls, cfg), "observed": "%s and %s overlap in the shared block" % (n1, n2), "expected": "disjoint views", "how": "solver counterexample of the layout obligation, built on the real class"}
+            if res is None and "n_added_records" in names and obj.n_added_records.size != 2:
+                res = {"key": "%s(%s, shared_memory=True)" % (cls, cfg), "observed": "n_added_records has %d elements" % obj.n_added_records.size, "expected": "2", "how": "solver counterexample of the layout obligation, built on the real class"}
+            del obj
+            if res:
+                return res
+        return fallback() if fallback else None
+
+    return f
+
+
+def owner_layout(chk, ex, cls, found):
+    """the arrays of a shared-memory sketch tile its block in order without overlap, each with
+    exactly the bytes of its array (so that the kernels' operands never alias); returns
+    (oref, ost, of, shm, size) or None"""
     name = cls
     a, owners, _ = _glue.good_objects(ex, cls, "o", shared=True)
     _wrappers.row(chk, name + ":shared-constructor-succeeds", bool(owners), None, found)
     if not owners:
-        return
+        return None
     oref, ost = owners[0]
     of = ost.objs[oref.oid]["fields"]
     shm = of.get("shm")
@@ -57,20 +113,31 @@ def check_class(chk, ex, cls, found):
         okv = isinstance(arr, Arr) and arr.buf is not None and arr.buf[0] == ost.objs[shm.oid]["fields"]["buf"].oid
         _wrappers.row(chk, "%s:owner:%s-is-a-view-of-the-block" % (name, fld), okv, None, found)
         if not okv:
-            return
+            return None
         blk, start, stop = view(arr)
         stop = stop if stop is not None else size
-        chk.prove("%s:owner:%s:starts-where-the-previous-view-ends" % (name, fld), pc, start == pos, tag="G")
-        chk.prove("%s:owner:%s:view-bytes==array-bytes" % (name, fld), pc, stop - start == nbytes(arr), tag="G")
+        chk.prove("%s:owner:%s:starts-where-the-previous-view-ends" % (name, fld), pc, start == pos, tag="G", found=layout_found(chk, cls, a, pc, start == pos, found))
+        chk.prove("%s:owner:%s:view-bytes==array-bytes" % (name, fld), pc, stop - start == nbytes(arr), tag="G", found=layout_found(chk, cls, a, pc, stop - start == nbytes(arr), found))
         pos = stop
-    chk.prove("%s:owner:views-cover-the-block" % name, pc, pos == size, tag="G")
+    chk.prove("%s:owner:views-cover-the-block" % name, pc, pos == size, tag="G", found=layout_found(chk, cls, a, pc, pos == size, found))
     if "n_added_records" in ARRAYS[cls]:
-        chk.prove("%s:owner:n_added_records-has-2-elements" % name, pc, of["n_added_records"].shape[0] == 2, tag="G")
+        g_ = of["n_added_records"].shape[0] == 2
+        chk.prove("%s:owner:n_added_records-has-2-elements" % name, pc, g_, tag="G", found=layout_found(chk, cls, a, pc, g_, found))
+    return oref, ost, of, shm, size
+
+
+def check_class(chk, ex, cls, found):
+    name = cls
+    lay = owner_layout(chk, ex, cls, found)
+    if lay is None:
+        return
+    oref, ost, of, shm, size = lay
     # attached view: a plain object built from the same arguments, then attach_existing_shm
     st = ost.fork()
     b, plains, _ = _glue.good_objects(ex, cls, "o", shared=False, st=st)
     pref, pst = plains[0]
     ex.attach_size = size
+    pre_fields = dict(pst.objs[pref.oid]["fields"])
     try:
         outs = _glue.call_method(ex, pst, pref, "attach_existing_shm", [Sym(z3.Int("shmname"), "str")])
     finally:
@@ -80,16 +147,26 @@ def check_class(chk, ex, cls, found):
     if not rets:
         return
     for pi, (o, eff) in enumerate(rets):
-        _attached_path(chk, ex, cls, name if len(rets) == 1 else "%s[path %d]" % (name, pi), o, eff, pref, of, ost, oref, shm, size, found)
+        _attached_path(chk, ex, cls, name if len(rets) == 1 else "%s[path %d]" % (name, pi), o, eff, pref, of, ost, oref, shm, size, found, pre_fields)
     _attach_helper(chk, ex, cls, name, of, ost, size, found)
 
 
-def _attached_path(chk, ex, cls, name, o, eff, pref, of, ost, oref, shm, size, found):
+def _attached_path(chk, ex, cls, name, o, eff, pref, of, ost, oref, shm, size, found, pre_fields=None):
     af = o.state.objs[pref.oid]["fields"]
     att = [e for e in eff if e[0] == "shm-attach"]
     _wrappers.row(chk, name + ":attach-opens-the-named-block-once", len(att) == 1 and not any(e[0] == "shm-create" for e in eff), None, found)
     _wrappers.row(chk, name + ":attached-view-remembers-existing_shm-not-shm", isinstance(af.get("existing_shm"), Ref) and "shm" not in af, None, found)
     apc = o.state.pc
+    # frame: apart from the views and existing_shm, attaching leaves every field that the ordinary
+    # constructor set with its value (an attached sketch is the ordinary sketch over another buffer;
+    # its Python-side caches must not claim to be newer than they are)
+    before = pre_fields or {}
+    changed = []
+    for e in eff:
+        if e[0] == "setattr" and e[1] == pref.oid and e[2] not in ARRAYS[cls] and e[2] != "existing_shm" and e[2] in before:
+            if not _wrappers.same_value(chk, apc, af.get(e[2]), before[e[2]]):
+                changed.append(e[2])
+    _wrappers.row(chk, name + ":attach-leaves-the-other-fields-of-the-sketch-as-constructed", not changed, "fields given another value: %s" % sorted(set(changed)), found)
     for fld in ARRAYS[cls]:
         x, y = of.get(fld), af.get(fld)
         okv = isinstance(y, Arr) and y.buf is not None and y.buf[0] == o.state.objs[af["existing_shm"].oid]["fields"]["buf"].oid if isinstance(af.get("existing_shm"), Ref) else False
@@ -188,9 +265,44 @@ def oracle(chk):
             bad = "n_added differs: owner %d view %d twin %d" % (int(owner.n_added()), int(view.n_added()), int(twin.n_added()))
         elif kind == "cms" and any(float(owner.query(k)) != float(view.query(k)) for k in keys):
             bad = "owner.query != view.query"
+        import os
+        import tempfile
+
+        if not bad:
+            # a view attached after the block was filled answers like the owner and the twin
+            late = helpers.attach_shared_memory(kind, owner.args, owner.shm.name)
+            if kind == "hh":
+                qs = [(x.query(5, 0), x.query(5), [int(x[k[: owner.max_key_len]]) for k in keys]) for x in (owner, late, twin)]
+            elif kind == "hll":
+                qs = [float(x.query()) for x in (owner, late, twin)]
+            else:
+                qs = [[float(x.query(k)) for k in keys] for x in (owner, late)]
+            if any(q != qs[0] for q in qs[1:]):
+                bad = "a view attached to the filled block answers differently: %s" % (qs,)
+            del late
+        if not bad:
+            # a sketch loaded with shared_memory=True is a shared sketch: its views see its state
+            tmp = tempfile.mkdtemp(prefix="skv")
+            fn = os.path.join(tmp, "x.npz")
+            try:
+                owner.save(fn)
+                own2 = (cm.load if kind == "cms" else type(owner).load)(fn, True)
+                v2 = helpers.attach_shared_memory(kind, own2.args, own2.shm.name)
+                s2, s3 = _oracle.state_of(own2), _oracle.state_of(v2)
+                for d in (s2, s3):
+                    d.pop("rand_ptr", None)
+                if not _oracle.same_state(s2, s3):
+                    bad = "load(shared_memory=True): the loaded sketch and a view attached to its block observe different state"
+                elif not _oracle.same_state(s2, so):
+                    bad = "load(shared_memory=True) differs from the saved sketch"
+                del v2
+                del own2
+            finally:
+                for f_ in os.listdir(tmp):
+                    os.unlink(os.path.join(tmp, f_))
+                os.rmdir(tmp)
         name = owner.shm.name
         del view
-        import os
 
         if not bad and not os.path.exists("/dev/shm/" + name.lstrip("/")):
             bad = "dropping a view removed the owner's segment"
@@ -201,6 +313,41 @@ def oracle(chk):
         if bad:
             return {"key": desc, "observed": bad, "how": "bounded oracle on the real classes (odd shapes)"}
     return None
+
+
+def loaded_shared(chk, ex, cls, found):
+    """load(file, shared_memory=True) is another way to create a shared sketch: after it returns,
+    the tables of the new sketch are (still) the views of the block it owns"""
+    name = cls + ".load(shared_memory=True)"
+    a, objs, _ = _glue.good_objects(ex, cls, "ls")
+    if not objs:
+        return
+    sref, st0 = objs[0]
+    fn = Sym(z3.Int("filename"), "str")
+    saves = [(o, e) for o, e in _glue.call_method(ex, st0.fork(), sref, "save", [fn]) if o.kind == "return"]
+    for o, eff in saves[:1]:
+        sv = [e for e in eff if e[0] == "savez"]
+        if len(sv) != 1:
+            continue
+        ex.npz_members = sv[0][2]
+        try:
+            louts = _glue.call_method(ex, o.state.fork(), sref, "load", [fn, Const(True)])
+        finally:
+            ex.npz_members = None
+        for lo, le in louts:
+            if lo.kind != "return" or not isinstance(lo.value, Ref):
+                continue
+            nf = lo.state.objs[lo.value.oid]["fields"]
+            shm = nf.get("shm")
+            okb = isinstance(shm, Ref)
+            _wrappers.row(chk, name + ":owns-a-block", okb, None, found)
+            if not okb:
+                continue
+            blk = lo.state.objs[shm.oid]["fields"]["buf"].oid
+            for fld in ARRAYS[cls]:
+                arr = nf.get(fld)
+                okv = isinstance(arr, Arr) and arr.buf is not None and arr.buf[0] == blk
+                _wrappers.row(chk, "%s:%s-is-a-view-of-the-owned-block" % (name, fld), okv, "after load the field %s is not backed by the sketch's shared block" % fld, found)
 
 
 def run(chk):
@@ -219,6 +366,12 @@ def run(chk):
             check_class(chk, ex, cls, found)
         except X.Unsupported as e:
             chk.undecided.append((cls + " shared memory", "unsupported construct in glue: %s" % e))
+    ex3 = glue.make_exec(chk, {("call", "HeavyHitters.generate_candidate_set"): glue._stub_gcs})
+    for cls in ARRAYS:
+        try:
+            loaded_shared(chk, ex3, cls, found)
+        except X.Unsupported as e:
+            chk.undecided.append((cls + ".load(shared_memory=True)", "unsupported construct in glue: %s" % e))
     bad = found()
     if bad:
         chk.violation("shared-memory:bounded:oracle", {"verdict": "bounded oracle failed"}, bad)
